@@ -219,7 +219,9 @@ package larking
 //@   ensures [refused-only-over-limit] dst == nil ==> rdpos(r) - old(rdpos(r)) > o.maxReceiveMessageSize
 //@   ensures [within-limit] dst != nil ==> rdpos(r) - old(rdpos(r)) <= o.maxReceiveMessageSize && err != nil
 //@   ensures [conserve] dst != nil ==> Buffered(dst, r, g0)
+//@   ensures [backing] base(dst) == 0 || base(dst) == base(b) || isfresh(dst)
 //@   loop 1 invariant Buffered(b, r, g0) && total == rdpos(r) - old(rdpos(r)) && 0 <= total && total <= o.maxReceiveMessageSize
+//@   loop 1 invariant base(b) == base(old(b)) || isfresh(b)
 //@   loop 1 decreases o.maxReceiveMessageSize + 1 - total assuming ReaderProgress
 
 //@ func (*muxOptions).writeAll serves C08 C04
@@ -628,8 +630,9 @@ package larking
 //@   witness verifWitnessReadMsg
 //@   modifies F$streamHTTP.recvCount, F$streamHTTP.rEOF, F$streamHTTP.rbuf, E$uint8, G$rd.pos
 //@   assert at "s.rbuf = append(s.rbuf[:0], b[n:]...)" [frame-read] err#1 == nil || err#1 == io.EOF ==> Window(b#2, s.r, rdpos(s.r) - len(b#2))
-//@   assert at "s.rbuf = append(s.rbuf[:0], b[n:]...)" [disjoint] base(b#2) != base(s.rbuf) || base(b#2) == 0
+//@   assert at "s.rbuf = append(s.rbuf[:0], b[n:]...)" [disjoint C06 C08 C09 C13] base(b#2) != base(s.rbuf) || base(b#2) == 0
 //@   assert at "if err == io.EOF {" [carry-stored] (err#1 == nil || err#1 == io.EOF ==> Window(b#2, s.r, rdpos(s.r) - len(b#2))) && len(s.rbuf) == len(b#2) - n
+//@   ensures [the-carry-over-does-not-live-in-the-callers-pooled-buffer C13] base(msg) == 0 || base(msg) != base(s.rbuf)
 //@   ensures [latched] old(s.rEOF) ==> err == io.EOF && len(msg) == 0
 //@   ensures [size] err == nil ==> len(msg) <= s.opts.maxReceiveMessageSize
 //@   ensures [no-phantom C06] at "return count, b[:n], err" s.rEOF && !old(s.rEOF) && err == nil ==> len(msg) > 0
@@ -756,6 +759,12 @@ package larking
 //@   witness verifWitnessGRPCRecv
 //@   assert at "if err := s.codec.Unmarshal(b, args); err != nil {" [size-limit C08] len(b) <= s.opts.maxReceiveMessageSize
 //@   assert at "if err := s.decompress(buf, b); err != nil {" [pooled-buffer-empty C06] buflen(buf) == 0
+//@   count bufgets `bufPool.Get(`
+//@   count bufputs `bufPool.Put(`
+//@   ensures [a-pooled-scratch-buffer-goes-back-exactly-once C13] at every return bufputs == bufgets
+//@   assert atcall `bufPool.Put(` [a-scratch-buffer-is-put-back-once C13] bufputs == 0 && bufgets == 1
+//@   assert atcall `buf.Bytes(` [a-scratch-buffer-is-not-read-after-it-went-back C13] bufputs == 0
+//@   assert atcall `buf.Len(` [a-scratch-buffer-is-not-measured-after-it-went-back C13] bufputs == 0
 //@   ensures [truncated-frame-is-an-error C06] at "return err" #3 err != io.EOF
 //@   count payloadEvents `stats.HandleRPC(`
 //@   ensures [one-in-payload-event-per-message C18] err == nil && s.opts.statsHandler != nil ==> payloadEvents == 1
@@ -776,6 +785,12 @@ package larking
 //@   requires s.opts.maxSendMessageSize <= 4294967295
 //@   witness verifWitnessGRPCSend
 //@   assert at "if err := s.compress(buf, b[5:]); err != nil {" [pooled-buffer-empty C06] buflen(buf) == 0
+//@   count bufgets `bufPool.Get(`
+//@   count bufputs `bufPool.Put(`
+//@   ensures [a-pooled-scratch-buffer-goes-back-exactly-once C13] at every return bufputs == bufgets
+//@   assert atcall `bufPool.Put(` [a-scratch-buffer-is-put-back-once C13] bufputs == 0 && bufgets == 1
+//@   assert atcall `buf.Bytes(` [a-scratch-buffer-is-not-read-after-it-went-back C13] bufputs == 0
+//@   assert atcall `buf.Len(` [a-scratch-buffer-is-not-measured-after-it-went-back C13] bufputs == 0
 //@   ensures [refused-only-over-send-limit C08] at `return fmt.Errorf("grpc: sent message larger than max (%d vs. %d)", size, s.opts.maxSendMessageSize)` len(b#1) - 5 > s.opts.maxSendMessageSize
 //@   count payloadEvents `stats.HandleRPC(`
 //@   ensures [one-out-payload-event-per-message C18] err == nil && s.opts.statsHandler != nil ==> payloadEvents == 1
@@ -1458,3 +1473,24 @@ package larking
 //@ func HTTPHandlerOption$1 serves C20 partial ghost
 //@   assert atcall `opts.serveMux.Handle(` [an-extra-handler-is-registered-under-its-own-pattern C20] arg1 == pattern && arg2 == handler
 //@   witness verifWitnessMountPrefix
+
+// ---------------------------------------------------------------------------
+// Pooled objects (C13, the sequential hand-back discipline only: which goroutine
+// gets what from a sync.Pool, and races, are outside these contracts). What a
+// per-function contract can decide of "pooled buffers and pooled compressors never
+// leak or corrupt bytes across requests": an object goes back to its pool at most
+// once per hand-out (a second Put makes the pool hand one object to two requests
+// that are alive at the same time), and nothing touches it after it went back.
+// gf(R, "pooled") == 1 while the gzip.Reader / gzip.Writer R sits in its pool. A
+// wrapper that a request holds owns its R: R is not in the pool (representation
+// invariant of gzipReader / gzipWriter: precondition and postcondition of their
+// methods, established by Decompress / Compress).
+//@ func (*gzipReader).Read serves C13 partial ghost post nil
+//@   returns (n, err)
+//@   requires z != nil && z.pool != nil && z.Reader != nil
+//@   requires z.Reader != nil ==> gf(z.Reader, "pooled") == 0
+//@   assert atcall `z.Reader.Read(` [a-reader-in-the-pool-is-not-read C13] z.Reader != nil ==> gf(z.Reader, "pooled") == 0
+//@   assert at "z.pool.Put(z)" [a-reader-is-handed-back-at-most-once C13] z.Reader != nil && gf(z.Reader, "pooled") == 0
+//@   ghost at "z.pool.Put(z)" set gf(z.Reader, "pooled") = 1
+//@   ensures [a-request-keeps-no-reader-that-is-in-the-pool C13] at every return z.Reader != nil ==> gf(z.Reader, "pooled") == 0
+//@   witness verifWitnessPooledReaderOnce
